@@ -778,6 +778,21 @@ func (w *walker) whose(mn *gen.Node, at int64, got []byte, i int) string {
 			}
 		}
 	}
+	for k, sib := range w.er.siblings { // multi-layer environments: bytes of another layer?
+		if k == w.er.layerNo {
+			continue
+		}
+		for _, p := range sib.files {
+			o := sib.model.Nodes[p]
+			lim := o.Size - int64(n)
+			for off := int64(0); off <= lim && off < 1<<19; off++ {
+				gen.FillContent(o.ContentID, off, buf)
+				if bytes.Equal(buf, probe) {
+					return fmt.Sprintf("these bytes are offset %d of %q of ANOTHER LAYER (layer %d; asked of layer %d)", off, p, k, w.er.layerNo)
+				}
+			}
+		}
+	}
 	if bytes.Equal(probe, make([]byte, n)) {
 		return "zero bytes"
 	}
